@@ -77,12 +77,14 @@ inductive Out where
   | none
   | err
   | panic
+  /-- the model ran out of fuel (an artefact of the model, never observed) -/
+  | fuel
   deriving DecidableEq
 
 /-- `parse_recognize_with` over `ParseIterator`: at `Incomplete` the final-segment parser takes over (only from the
 stacks `[Init]` / `[AfterAttr]`, otherwise a syntax error); when the iterator ends, `try_flush`. -/
 def oneFrom : Nat → List PS → MSt → List Char → Out
-  | 0, _, _, _ => .err
+  | 0, _, _, _ => .fuel
   | fuel + 1, stack, m, inp =>
     match istep stack inp with
     | .fin => (match m.flush with | some v => .value v | none => .err)
@@ -112,7 +114,7 @@ def parseOne (inp : List Char) : Out := oneFrom (fuelFor inp) [.init] {} inp
 
 /-- `decode_inner` on the available text: parser stack, recognizer, what is left unconsumed, outcome. -/
 def decodeInner : Nat → List PS → MSt → List Char → List PS × MSt × List Char × Out
-  | 0, stack, m, cur => (stack, m, cur, .err)
+  | 0, stack, m, cur => (stack, m, cur, .fuel)
   | fuel + 1, stack, m, cur =>
     match istep stack cur with
     | .ok evs _ stack' rest =>
